@@ -319,6 +319,13 @@ var c06Contexts = []c06Ctx{
 	{"for-body", []string{"for k := 0; k < 1; k++ {"}, []string{"}"}},
 	{"switch-case", []string{"switch vi {", "case 1:"}, []string{"}"}},
 	{"function-nested-2", []string{"func ctxg() {", "for k := 0; k < 1; k++ {", "if vb {"}, []string{"}", "}", "}", "ctxg()"}},
+	// code that never runs is typed like code that runs: a function nobody calls (its text is removed before the
+	// script is written), nested blocks inside one, and a function whose only caller is itself never called
+	{"function-unused", []string{"func ctxu() {"}, []string{"}"}},
+	{"function-unused-nested-2", []string{"func ctxv() {", "for k := 0; k < 1; k++ {", "if vb {"}, []string{"}", "}", "}"}},
+	{"function-called-by-unused", []string{"func ctxw() {"}, []string{"}", "func ctxx() {", "ctxw()", "}"}},
+	// templates that are function definitions themselves (return slots): the function is also called
+	{"top-called", nil, []string{"r()"}},
 }
 
 func c06Build(p position, o offer, ctx c06Ctx) string {
@@ -402,7 +409,7 @@ func init() {
 
 func TestC06(t *testing.T) {
 	r, e := start(t, "C06",
-		"(1) exhaustive table: every typed position of the grammar (operands of each operator, definition/assignment/compound slots, arguments and arity, return slots at any nesting depth, conditions, case expressions and tags, range operands, slice elements, indices, bounds, builtin arguments) x every offered type {int,bool,string/error/nil,[]int,[]bool,[]string,no-value,multi-value} in up to 4 expression shapes x 6 enclosing contexts (top level, function, if, for, switch case, two blocks deep inside a function); (2) random well-typed programs with one expression replaced by one of another type; the corrupted program and one expression shape of every table cell are also checked as the text of an IMPORTED file (same verdict expected). Oracle: own typing rules (Go's for the shared syntax, README signatures for builtins): accept iff well-typed, same verdict for Bash and Batch, no script on error. Non-trivial = cells whose offered expression is itself well-typed but of the wrong type for the position, and accept cells with a non-literal shape; distinct by program text.",
+		"(1) exhaustive table: every typed position of the grammar (operands of each operator, definition/assignment/compound slots, arguments and arity, return slots at any nesting depth, conditions, case expressions and tags, range operands, slice elements, indices, bounds, builtin arguments) x every offered type {int,bool,string/error/nil,[]int,[]bool,[]string,no-value,multi-value} in up to 4 expression shapes x 9 enclosing contexts (top level, function, if, for, switch case, two blocks deep inside a function, a function that is never called, two blocks deep inside one, a function only called by a function that is never called; return slots in a function that is / is not called); (2) random well-typed programs with one expression replaced by one of another type; the corrupted program and one expression shape of every table cell are also checked as the text of an IMPORTED file (same verdict expected). Oracle: own typing rules (Go's for the shared syntax, README signatures for builtins): accept iff well-typed, same verdict for Bash and Batch, no script on error. Non-trivial = cells whose offered expression is itself well-typed but of the wrong type for the position, and accept cells with a non-literal shape; distinct by program text.",
 		[]string{"not asserted (unspecified by the property / README): ordering comparison of strings, panic argument type, slice equality, x := nil, nil returned for a slice result, slicing a slice, multi-valued call as sole argument of another call", "error is string and nil is the empty string, as the README states"})
 	defer r.Flush()
 
@@ -421,7 +428,11 @@ func TestC06(t *testing.T) {
 				continue // a parenthesised multi-value call where several values are wanted: not asserted
 			}
 			for _, ctx := range c06Contexts {
-				if p.topOnly && ctx.name != "top" {
+				if ctx.name == "top-called" {
+					if !p.topOnly || !strings.HasPrefix(p.lines[0], "func r()") {
+						continue
+					}
+				} else if p.topOnly && ctx.name != "top" {
 					continue
 				}
 				idx++
